@@ -13,7 +13,9 @@ ID = "C16"
 RULE = ("every seed-accepting entry point x seeds {0, 1, 2^31-1, random} x seeded shapes/options; the global generator is reseeded "
         "and advanced between the two calls; non-trivial = the output actually depends on the seed (differs for seed+1) ; distinct = "
         "distinct (entry point, shapes, options, seed)")
-ASSUMPTIONS = ["bitwise comparison of every array reachable from the return value", "NumPy backend; thread-free"]
+ASSUMPTIONS = ["bitwise comparison of every array reachable from the return value", "NumPy backend",
+               "concurrent clause: three threads (two with the same seed) call the entry point at once with a yield injected at every statement "
+               "boundary inside tensorly (sys.monitoring LINE, at most 20 000 yields per case); each result must equal the call made alone"]
 ENTRY = ["random_tensor", "random_cp", "random_tucker", "random_tt", "random_tt_matrix", "random_tr", "random_parafac2",
          "parafac", "parafac_svd_pad", "nn_parafac", "nn_parafac_hals", "constrained_parafac", "randomised_parafac", "tucker", "tucker_randomized_svd",
          "nn_tucker", "nn_tucker_hals", "parafac2", "tr_als", "tr_als_sampled", "tt_cross", "randomized_svd", "sample_khatri_rao",
